@@ -19,6 +19,9 @@ var N = impl.N
 
 type FieldGen struct {
 	R *Rng
+	// OutOfDomain is set by Value when it knowingly leaves the value domain (over-length
+	// values, positional runs that can not be kept non-empty on the wire)
+	OutOfDomain bool
 	// distribution counters (printed into the evidence)
 	Dist map[string]int
 }
@@ -129,8 +132,8 @@ func (g *FieldGen) Prim(allowNone bool) *T {
 	if fixed {
 		pref = fam + ".F"
 	}
-	if allowNone && r.Intn(3) == 0 {
-		pref = "none"
+	if allowNone && r.Intn(3) == 0 && (enc == "ascii" || enc == "ebcdic" || enc == "ebcdic1047" || enc == "binary") {
+		pref = "none" // K7: one byte per unit
 	}
 	packer := "d"
 	if kind == "s" && r.Intn(14) == 0 && (enc == "bcd" || enc == "ascii" || enc == "ebcdic") && !fixed && pref != "none" {
@@ -196,7 +199,11 @@ func (g *FieldGen) Comp(depth int, allowNone bool) *T {
 		if allowNone && r.Intn(4) == 0 {
 			pref = "none"
 		}
-		modeT := N("t", A("0"), A("-"), A("nil"), A(Pick(r, []string{"str", "int"})), A("0"), A("-"))
+		posSort := Pick(r, []string{"str", "int"})
+		if n > 9 {
+			posSort = "int" // "10" sorts before "2" as a string: the run order must be the spec order
+		}
+		modeT := N("t", A("0"), A("-"), A("nil"), A(posSort), A("0"), A("-"))
 		kids = append(kids, A(strconv.Itoa(length)), A(pref), modeT)
 		for i := 0; i < n; i++ {
 			kids = append(kids, N("sub", A(strconv.Itoa(i+1)), sub(i == n-1, true)))
@@ -275,7 +282,7 @@ func (g *FieldGen) Comp(depth int, allowNone bool) *T {
 		}
 		for _, k := range keys {
 			f := sub(false, false)
-			if f.Name == "p" && r.Intn(2) == 0 { // typical EMV: BER length prefix on the element
+			if f.Name == "p" && f.Kids[2].Name != "hexToBytes" && r.Intn(2) == 0 { // typical EMV: BER length prefix on the element
 				f.Kids[3] = A("ber")
 			}
 			kids = append(kids, N("sub", A(k), f))
@@ -380,6 +387,7 @@ func (g *FieldGen) Value(spec *T, over bool) *T {
 		}
 		if over {
 			l = max + 1 + r.Intn(3)
+			g.OutOfDomain = true
 		}
 		if l < 0 {
 			l = 0
@@ -392,7 +400,24 @@ func (g *FieldGen) Value(spec *T, over bool) *T {
 				}
 				return N("s", A(H(r.From(encAlphabetFor(enc), l))))
 			}
-			return N("s", A(H(r.From(encAlphabetFor(enc), l))))
+			txt := r.From(encAlphabetFor(enc), l)
+			if spec.Kids[5].Name == "t2" && len(txt) > 0 {
+				// Track2 packer: the text must not begin / end with the pad character
+				if side, c, ok := padInfo(pad); ok {
+					alpha := encAlphabetFor(enc)
+					for tries := 0; tries < 50; tries++ {
+						if (side == 'L' && txt[0] != c) || (side == 'R' && txt[len(txt)-1] != c) {
+							break
+						}
+						if side == 'L' {
+							txt[0] = alpha[r.Intn(len(alpha))]
+						} else {
+							txt[len(txt)-1] = alpha[r.Intn(len(alpha))]
+						}
+					}
+				}
+			}
+			return N("s", A(H(txt)))
 		case "b":
 			return N("b", A(H(r.From(encAlphabetFor(enc), l))))
 		case "h":
@@ -440,6 +465,20 @@ func (g *FieldGen) Value(spec *T, over bool) *T {
 			}
 			for _, s := range subs[:k] {
 				v.Kids = append(v.Kids, N("kv", A(s.Kids[0].Name), g.Value(s.Kids[1], false)))
+			}
+			if !fixedPref {
+				// a trailing element that packs to no bytes is invisible on the wire: end the run before it
+				for len(v.Kids) > 0 {
+					last := v.Kids[len(v.Kids)-1]
+					wire, ok := packReal(fmt.Sprintf("F %s pack %s", subs[len(v.Kids)-1].Kids[1].String(), last.Kids[1].String()))
+					if !ok || len(wire) > 0 {
+						break
+					}
+					v.Kids = v.Kids[:len(v.Kids)-1]
+				}
+				if len(v.Kids) == 0 {
+					g.OutOfDomain = true
+				}
 			}
 		} else {
 			for _, s := range subs {
@@ -573,6 +612,7 @@ func init() {
 	extraChannels["F"] = ChannelF
 	extraChannels["M"] = ChannelM
 	extraChannels["O"] = ChannelO
+	extraChannels["K"] = ChannelK
 }
 
 func packReal(line string) ([]byte, bool) {
@@ -680,5 +720,22 @@ func ChannelO(t Tier, r *Rng, emit Emit) {
 			keys[j], keys[k] = keys[k], keys[j]
 		}
 		emit(fmt.Sprintf("O %s %s", kind, strings.Join(keys, ",")))
+	}
+}
+
+// ChannelK: generated specs and values must satisfy the Lean Coherent / InDomain predicates.
+func ChannelK(t Tier, r *Rng, emit Emit) {
+	g := NewFieldGen(r)
+	for i := 0; i < t.N(1500, 30000); i++ {
+		spec := g.Field(r.Intn(4))
+		emit("K f " + spec.String())
+		g.OutOfDomain = false
+		v := g.Value(spec, false)
+		if !g.OutOfDomain {
+			emit("K fd " + spec.String() + " " + v.String())
+		}
+	}
+	for i := 0; i < t.N(500, 10000); i++ {
+		emit("K m " + g.MsgSpec(r.Intn(3)).String())
 	}
 }
